@@ -197,7 +197,7 @@ func child(name, outPath string) {
 		vars := diffrun.DecodeVars(op.Vars)
 		base := univ.SeedPlan{Seed: uint64(opSeed), MaxList: 3, NullPermille: 30}
 		omit, _ := env.Probe.Options["nullable_input_omittable"].(bool)
-		clean := ref.Execute(env, &base, doc, op.OpName, vars, ref.Options{Omittable: omit})
+		clean := ref.Execute(env, &base, doc, op.OpName, diffrun.CopyJSON(vars), ref.Options{Omittable: omit})
 		if clean.RequestError != "" {
 			continue
 		}
